@@ -74,9 +74,11 @@ class PollSelector(SelectorBase):
     def __init__(self, socket):
         super(PollSelector, self).__init__(socket)
         self._poll = select.poll()
+        # Not POLLPRI: urgent (out-of-band) data is not read by recv(), a
+        # single urgent byte from the peer would make the socket look
+        # readable for ever and the event loop block in a read
         events = (
             select.POLLIN |
-            select.POLLPRI |
             select.POLLERR |
             select.POLLHUP
         )
